@@ -15,9 +15,17 @@ def main():
     sub.add_parser("selftest")
     a = ap.parse_args()
 
-    # reproducible hashing in this process and every child
-    if os.environ.get("PYTHONHASHSEED") != "0":
-        os.environ["PYTHONHASHSEED"] = "0"
+    # reproducible hashing in this process and every child (a replay file may name the hash seed its violation was found under)
+    want_hs = "0"
+    if a.cmd == "replay":
+        try:
+            import json
+
+            want_hs = str(json.load(open(a.path)).get("hashseed", "0"))
+        except Exception:  # noqa: BLE001
+            want_hs = "0"
+    if os.environ.get("PYTHONHASHSEED") != want_hs:
+        os.environ["PYTHONHASHSEED"] = want_hs
         os.execv(sys.executable, [sys.executable, "-m", "mzcheck"] + sys.argv[1:])
 
     from . import runner
